@@ -106,8 +106,9 @@ def rewardWeightChangeHook (assets : List Asset) : M (List Asset) := do
       else if a.lastChange + a.changeIntv > w.time then go rest (a :: acc)
       else
         let n : Int := (w.time - a.lastChange).tdiv a.changeIntv
-        let mult := power a.changeRate n.toNat
-        let w0 := mul a.weight mult
+        -- `Power` and `Mul` panic ("Int overflow") beyond 315 bits; reachable with a change rate above one
+        let some mult := powerChk a.changeRate n.toNat | panicE "overflow"
+        let some w0 := mulChk a.weight mult | panicE "overflow"
         let w1 := if w0 < a.wmin then a.wmin else w0
         let w2 := if w1 > a.wmax then a.wmax else w1
         let a' := { a with weight := w2, lastChange := a.lastChange + a.changeIntv * n }
